@@ -1,6 +1,7 @@
 """Which units decide which property."""
 from __future__ import annotations
 
+import os
 import importlib
 
 OP_MODULES = ["contracts.c05", "contracts.c06", "contracts.c11", "contracts.c13", "contracts.c40", "contracts.c17", "contracts.c17q",
@@ -360,6 +361,15 @@ def units_for(prop, tier):
         us.append({"runner": "frame", "mode": "local", "prop": prop, "files": _property_files(prop), "id": f"state-allocation/{prop}"})
         # ... and about the implementation functions: the public entry points reach them with the very arguments (pubapi.py)
         us.append({"runner": "pubapi", "prop": prop, "files": _property_files(prop), "id": f"public-entry-points/{prop}"})
+    if prop in ("C02", "C03") and "own" in fams:
+        # the ownership analysis (own.py) proves, for ONE subscription, that every handle it takes ends up owned by what subscribe returns.  That it
+        # speaks for every subscription needs the frame condition over the same files: a handle kept in a variable that several subscriptions /
+        # applications share is overwritten by the next one, and released by the wrong one
+        import glob as _glob
+        from .loader import REPO as _REPO
+        fl = sorted(os.path.relpath(f_, _REPO) for pat in ("reactivex/operators/**/*.py", "reactivex/observable/**/*.py")
+                    for f_ in _glob.glob(os.path.join(_REPO, pat), recursive=True))
+        us.append({"runner": "frame", "mode": "local", "prop": prop, "files": fl, "id": f"state-allocation/{prop}"})
     if prop == "C44" or prop in STATE_ALLOCATION:
         # the decorator every operator implementation function goes through (the contracts call `op_(args)(source)`)
         us.append({"runner": "currywire", "prop": prop, "id": "reactivex/internal/curry.py::curry_flip"})
